@@ -38,6 +38,9 @@ var c11Files = map[string]string{
 	"aa2.fa": ">p1\nMAKWLLDE-RSTVIPG\n>p2\nMAKWL-DEQRSTVLPG\n>p3\nMGKWILNEQRATV-PG\n>p4\nMGRWILNDQKATVIPA\n",
 	// a saturated pair (s2,s3 differ at exactly 3 sites of 4: the jc distance is undefined) met after the
 	// pairs with defined distances, and the same rows in the other order
+	"ntlong.fa": ">s1\nATGGCTAAGTGAACGTTGCAATGC\n>s2\nATGGCTAAG-GAACGATGCTATGC\n>s3\nATGACTAAGTNAACCTTGGAATCC\n>s4\nATGACCAAGTGATCGTTGCATTGA\n",
+	// names and rows that are NEXUS keywords but for their case
+	"kw.fa": ">Data\nACGT\n>end\nAC-T\n>Matrix\nTTGA\n>tree\nGGCA\n",
 	"sat.fa":  ">s1\nAACA\n>s2\nAAAA\n>s3\nCCCA\n",
 	"sat2.fa": ">s1\nAAAA\n>s2\nCCCA\n>s3\nAACA\n",
 	// the ORF ATGCTTTGGTAA translates to MLW*: L is a protein-only letter, so the pairwise aligner reads it as a protein
@@ -693,6 +696,8 @@ type c11Boot struct {
 	Input string `json:"input"`
 	// Flags given both to build distboot and to compute distance (-r, --alpha a)
 	Flags []string `json:"flags,omitempty"`
+	// BootFlags: given both to build distboot and to build seqboot (-f fraction)
+	BootFlags []string `json:"boot_flags,omitempty"`
 }
 
 func c11CheckBoot(c *mc.Ctx, b c11Boot) {
@@ -715,12 +720,12 @@ func c11CheckBoot(c *mc.Ctx, b c11Boot) {
 		}
 		return so.String(), nil
 	}
-	direct, err := run(append([]string{"build", "distboot", "-i", in, "-n", fmt.Sprint(b.N), "--seed", fmt.Sprint(b.Seed), "-m", b.Model}, b.Flags...)...)
+	direct, err := run(append(append([]string{"build", "distboot", "-i", in, "-n", fmt.Sprint(b.N), "--seed", fmt.Sprint(b.Seed), "-m", b.Model}, b.Flags...), b.BootFlags...)...)
 	if err != nil {
 		c.Violation("C11/bootstrap-equivalence/command-fails", err.Error(), b)
 		return
 	}
-	if _, err = run("build", "seqboot", "-i", in, "-n", fmt.Sprint(b.N), "--seed", fmt.Sprint(b.Seed), "-o", "rep"); err != nil {
+	if _, err = run(append([]string{"build", "seqboot", "-i", in, "-n", fmt.Sprint(b.N), "--seed", fmt.Sprint(b.Seed), "-o", "rep"}, b.BootFlags...)...); err != nil {
 		c.Violation("C11/bootstrap-equivalence/command-fails", err.Error(), b)
 		return
 	}
@@ -736,7 +741,7 @@ func c11CheckBoot(c *mc.Ctx, b c11Boot) {
 	c.Nontrivial(fmt.Sprintf("%v", b))
 	c.Outcome("boot:" + b.Model)
 	if two.String() != direct {
-		c.Violation("C11/bootstrap-equivalence/matrices-differ", fmt.Sprintf("build distboot -n %d --seed %d -m %s %s on %s gives %q; seqboot + compute distance gives %q", b.N, b.Seed, b.Model, strings.Join(b.Flags, " "), b.Input, c11Short(direct), c11Short(two.String())), b)
+		c.Violation("C11/bootstrap-equivalence/matrices-differ", fmt.Sprintf("build distboot -n %d --seed %d -m %s %s on %s gives %q; seqboot + compute distance gives %q", b.N, b.Seed, b.Model, strings.Join(append(append([]string{}, b.Flags...), b.BootFlags...), " "), b.Input, c11Short(direct), c11Short(two.String())), b)
 	}
 }
 
@@ -753,7 +758,7 @@ func init() {
 		ID:    "C11",
 		Level: "model_checking",
 		Rule: "subprocess-mode exploration of the goalign binary instrumented from the current tree: for each of the listed command scenarios (every documented command family, 1-3 flag sets each, on small nucleotide / protein / multi-Phylip / malformed-second-alignment inputs) x seeds {1,7} (randomised commands) x --threads {1,2,3,16} (threaded commands): the default execution, then EVERY execution within 2 (quick) / 3 (thorough) deviations from it when run with one thread, 2 deviations with 2 threads and 1 deviation with 3 and 16 threads (both tiers) — a deviation is one scheduling decision other than the default (keep the running goroutine, else the lowest runnable id) at a channel/mutex/WaitGroup/spawn operation, one non-sorted iteration order at a ranged map, or one clock step at time.Now — must give exactly the bytes (stdout, exit status, every file written) of the default one-thread execution, end normally, and show no data race (vector clocks). " +
-			"Reformat chains: ALL format sequences of <=3 conversions among fasta/phylip/nexus/clustal that return to the starting format, on 5 inputs (one with '?', '*' and lower case), must return the starting bytes; build distboot == build seqboot + compute distance for 9 models (6 nucleotide, 3 protein on a gapped protein alignment) x {no flag, -r, --alpha 0.7, both} x 2 seeds. Each scenario also runs on the uninstrumented binary and on the instrumented binary in pass-through mode (must agree). states/transitions = nodes/edges of the choice trees; distinct_nontrivial = distinct (scenario, seed, threads, choice list) executions compared.",
+			"Reformat chains: ALL format sequences of <=3 conversions among fasta/phylip/nexus/clustal that return to the starting format, on 6 inputs (one with '?', '*' and lower case, one whose names are NEXUS keywords but for their case), must return the starting bytes; build distboot == build seqboot + compute distance for 9 models (6 nucleotide, 3 protein on a gapped protein alignment) x {no flag, -r, --alpha 0.7, both} x 2 seeds, and x partial bootstrap -f 0.5, 0.25. Each scenario also runs on the uninstrumented binary and on the instrumented binary in pass-through mode (must agree). states/transitions = nodes/edges of the choice trees; distinct_nontrivial = distinct (scenario, seed, threads, choice list) executions compared.",
 		Assumptions: []string{
 			"scheduling points only at synchronisation operations (channel, mutex, WaitGroup, go); data races are reported separately by vector clocks",
 			"stderr is not compared (log lines); dependencies (cobra, gzip, xz, tar) are not instrumented: they spawn no goroutines and range over no maps on these paths",
@@ -801,7 +806,7 @@ func init() {
 				}
 			}
 			// reformat chains
-			for _, in := range []string{"nt.fa", "aa.fa", "tie.fa", "nt2.fa", "odd.fa"} {
+			for _, in := range []string{"nt.fa", "aa.fa", "tie.fa", "nt2.fa", "odd.fa", "kw.fa"} {
 				for _, start := range c11Formats {
 					in, start := in, start
 					ts = append(ts, mc.Task{Name: fmt.Sprintf("chain#%s/%s", in, start), Run: func(c *mc.Ctx) {
@@ -825,6 +830,15 @@ func init() {
 						b := c11Boot{Model: m, Seed: sd, N: 3, Input: in, Flags: fl}
 						ts = append(ts, mc.Task{Name: fmt.Sprintf("boot#%s/flags%d/seed%d", m, fi, sd), Run: func(c *mc.Ctx) { c11CheckBoot(c, b) }})
 					}
+				}
+				// partial bootstrap (-f) of a longer input
+				for fi, fr := range []string{"0.5", "0.25"} {
+					lin := "ntlong.fa"
+					if in == "aa2.fa" {
+						lin = in
+					}
+					b := c11Boot{Model: m, Seed: 3, N: 2, Input: lin, BootFlags: []string{"-f", fr}}
+					ts = append(ts, mc.Task{Name: fmt.Sprintf("boot#%s/frac%d", m, fi), Run: func(c *mc.Ctx) { c11CheckBoot(c, b) }})
 				}
 			}
 			return ts
